@@ -197,6 +197,7 @@ func c17Pure(tier string) *PureResult {
 	os.Unsetenv("GO_DCP__DCP_GROUP_MEMBERSHIP_TOTALMEMBERS")
 	os.Unsetenv("GO_DCP__DCP_GROUP_MEMBERSHIP_MEMBERNUMBER")
 	c17Derived(res, add)
+	c17Sequences(res, add)
 	c17Sizes(tier, res, add)
 	c17Placeholders(res, add)
 	res.States = res.Evaluations
@@ -329,6 +330,81 @@ func c17Derived(res *PureResult, add func(string)) {
 			}
 			if !reflect.DeepEqual(got, want) {
 				add(fmt.Sprintf("leader election %s = %v, want %v (override mask %x)", k.key, got, want, mask))
+			}
+		}
+	}
+}
+
+// c17Sequences: the derived settings are a function of the configuration as it is NOW - asked again after the
+// configuration changed, or on a copy of a configuration that was already used, they follow the new values.
+func c17Sequences(res *PureResult, add func(string)) {
+	c := config.Dcp{Hosts: []string{"h1"}, Username: "user", Password: "pw", BucketName: "bk"}
+	c.Metadata.Config = map[string]string{}
+	type step struct {
+		name   string
+		change func(c *config.Dcp)
+		want   func(m *config.CouchbaseMetadata) string
+	}
+	show := func(m *config.CouchbaseMetadata) string {
+		return fmt.Sprintf("hosts=%v user=%s pw=%s bucket=%s scope=%s collection=%s timeout=%v", m.Hosts, m.Username, m.Password, m.Bucket, m.Scope, m.Collection, m.ConnectionTimeout)
+	}
+	steps := []step{
+		{"first use", func(c *config.Dcp) {}, nil},
+		{"bucket renamed", func(c *config.Dcp) { c.BucketName = "bk2" }, nil},
+		{"scope overridden", func(c *config.Dcp) { c.Metadata.Config["scope"] = "s2" }, nil},
+		{"credentials changed", func(c *config.Dcp) { c.Username, c.Password = "u2", "p2" }, nil},
+		{"bucket overridden", func(c *config.Dcp) { c.Metadata.Config["bucket"] = "meta" }, nil},
+		{"override removed", func(c *config.Dcp) { delete(c.Metadata.Config, "bucket") }, nil},
+		{"hosts changed", func(c *config.Dcp) { c.Hosts = []string{"h9", "h8"} }, nil},
+	}
+	for i, st := range steps {
+		st.change(&c)
+		got := show(c.GetCouchbaseMetadata())
+		// reference: the same configuration value asked for the first time
+		fresh := c
+		fresh.Metadata.Config = map[string]string{}
+		for k, v := range c.Metadata.Config {
+			fresh.Metadata.Config[k] = v
+		}
+		ref := config.Dcp{Hosts: append([]string{}, fresh.Hosts...), Username: fresh.Username, Password: fresh.Password, BucketName: fresh.BucketName}
+		ref.Metadata.Config = fresh.Metadata.Config
+		want := show(ref.GetCouchbaseMetadata())
+		res.Evaluations++
+		res.Distinct++
+		if got != want {
+			add(fmt.Sprintf("derived metadata settings after step %d (%s) on a configuration that was used before: %s; a fresh configuration with the same values gives %s", i, st.name, got, want))
+		}
+		// a copy of the used configuration with other values
+		d := c
+		d.BucketName = "copy-bucket"
+		d.Metadata.Config = map[string]string{"collection": "cc"}
+		m := d.GetCouchbaseMetadata()
+		res.Evaluations++
+		if m.Bucket != "copy-bucket" || m.Collection != "cc" {
+			add(fmt.Sprintf("a copy of a used configuration (step %d) with bucket copy-bucket / collection cc derives bucket=%s collection=%s", i, m.Bucket, m.Collection))
+		}
+	}
+	// leader election and membership: every key with a second, small value; asked twice
+	for _, lease := range []string{"", "2s", "4s", "5s", "5001ms", "6s", "30s"} {
+		for _, renew := range []string{"", "1s", "3s", "10s"} {
+			var c config.Dcp
+			c.LeaderElection.Config = map[string]string{"leaseLockName": "ln", "leaseLockNamespace": "ns"}
+			wl, wr := 8*time.Second, 5*time.Second
+			if lease != "" {
+				c.LeaderElection.Config["leaseDuration"] = lease
+				wl, _ = time.ParseDuration(lease)
+			}
+			if renew != "" {
+				c.LeaderElection.Config["renewDeadline"] = renew
+				wr, _ = time.ParseDuration(renew)
+			}
+			for rep := 0; rep < 2; rep++ {
+				m := c.GetKubernetesLeaderElector()
+				res.Evaluations++
+				res.Distinct++
+				if m.LeaseDuration != wl || m.RenewDeadline != wr || m.RetryPeriod != time.Second {
+					add(fmt.Sprintf("leader election with leaseDuration=%q renewDeadline=%q: lease %v renew %v retry %v, want %v / %v / 1s (documented defaults unless overridden key by key)", lease, renew, m.LeaseDuration, m.RenewDeadline, m.RetryPeriod, wl, wr))
+				}
 			}
 		}
 	}
